@@ -7,7 +7,7 @@ import vf, advtrace
 
 HARNESS_PKGS = {
     "internal/corerad": ["common/vf_util.go", "common/vf_ra.go", "corerad/vf_world.go", "corerad/vf_adv.go",
-                         "corerad/vf_mdelay.go"],
+                         "corerad/vf_mdelay.go", "corerad/vf_verify.go"],
     "internal/system": ["system/vf_export.go"],
 }
 
